@@ -295,7 +295,10 @@ void rtosc_v2argvals(rtosc_arg_val_t *args,
     for(size_t i=0; i<nargs; ++i, ++arg_str, ++args)
     {
         args->type = *arg_str;
-        rtosc_v2args(&args->val, 1, arg_str, &ap2);
+        if(has_reserved(*arg_str))
+            rtosc_v2args(&args->val, 1, arg_str, &ap2);
+        else
+            args->val.T = (*arg_str == 'T');
     }
     va_end(ap2.a);
 }
